@@ -196,6 +196,7 @@ structure Spec where
   sin : Option Slot
   sout : Option Slot
   serr : Option Slot
+  files : List (Nat × Str)   -- the targets safe_open opened for writing while the spec was built (stdout's, then stderr's)
   deriving DecidableEq, Repr
 
 /-- `SubprocSpec.resolve_redirects`: every redirect is decoded and assigned, in order -/
@@ -216,6 +217,10 @@ def applyRedirs (T : Tables) (ts : Nat → TState) :
           | .error x => .error x
           | .ok e' => applyRedirs T ts rest (i', o', e')
 
+def slotFile : Option Slot → List (Nat × Str)
+  | some (.file t m) => [(t, m)]
+  | _ => []
+
 /-- `SubprocSpec.build`: redirects, then `_update_proc_alias_threadable` for callable aliases -/
 def buildSpec (T : Tables) (ts : Nat → TState) (cfg : Cfg) (st : Stage) : Except Err Spec :=
   match applyRedirs T ts st.redirs (none, none, none) with
@@ -224,7 +229,7 @@ def buildSpec (T : Tables) (ts : Nat → TState) (cfg : Cfg) (st : Stage) : Exce
     let thr := match st.kind with
       | .proc _ => true
       | .alias mark => cfg.thread && mark
-    .ok { kind := st.kind, threadable := thr, sin := i, sout := o, serr := e }
+    .ok { kind := st.kind, threadable := thr, sin := i, sout := o, serr := e, files := slotFile o ++ slotFile e }
 
 def buildAll (T : Tables) (ts : Nat → TState) (cfg : Cfg) : List Stage → Except Err (List Spec)
   | [] => .ok []
@@ -349,7 +354,6 @@ inductive Src where
   | file (t : Nat)
   | pipe              -- the previous stage
   | broken            -- a stream object on which read() raises
-  | blocked           -- a pipe that never reports EOF: the stage never gets to write
   deriving DecidableEq, Repr
 
 /-- what CommandPipeline does with the two capture channels of the last stage -/
@@ -377,7 +381,9 @@ structure StageOut where
   src : Src
   out : List Place
   err : List Place
+  files : List (Nat × Str)    -- the targets this stage opened for writing, with their open mode (`a> f`: f twice)
   deriving DecidableEq, Repr
+
 
 def srcOf (q : Quirks) (s : Spec) : Src :=
   match s.sin with
@@ -432,29 +438,21 @@ def stageOut (q : Quirks) (cfg : Cfg) (cap : Cap) (s : Spec) : StageOut :=
         | _ => errDirect
       (o, e)
   -- a stage of the harness reads its stdin to the end before it writes
-  if src = .broken then ⟨src, [], []⟩ else ⟨src, o, e⟩
+  if src = .broken then ⟨src, [], [], s.files⟩ else ⟨src, o, e, s.files⟩
 
 /-- does CommandPipeline crash on an integer handle?  (a) ProcProxy whose stdout slot still holds the
 flag 2: before the alias runs; (b) ProcProxyThread, uncaptured, stderr = subprocess.STDOUT: after it ran -/
 def crashBefore (q : Quirks) (last : Spec) : Bool :=
-  q.intNotReadable && isAlias last.kind && !last.threadable && last.sout = some .fd2
+  isAlias last.kind && !last.threadable && last.sout = some .fd2 && q.intNotReadable
 
 def crashAfter (q : Quirks) (cap : Cap) (last : Spec) : Bool :=
-  q.intNotReadable && isAlias last.kind && last.threadable && cap = .uncaptured && last.serr = some .toStdout
+  isAlias last.kind && last.threadable && cap = .uncaptured && last.serr = some .toStdout && q.intNotReadable
 
 structure Outcome where
   err : Option Err            -- raised before anything ran
   raisedAfter : Bool          -- an exception was raised although the stages ran
   stages : List StageOut
   deriving DecidableEq, Repr
-
-/-- the exception of `crashAfter` leaves the pipe into the last stage open in the shell: an alias that reads its stdin to
-the end never sees EOF, never writes, and what the earlier stages sent into that pipe is never read -/
-def blockLast (n : Nat) : List StageOut → List StageOut
-  | [] => []
-  | [_] => [⟨.blocked, [], []⟩]
-  | s :: rest =>
-    ⟨s.src, s.out.filter (· ≠ .stdinOf (n - 1)), s.err.filter (· ≠ .stdinOf (n - 1))⟩ :: blockLast n rest
 
 def route (T : Tables) (ts : Nat → TState) (q : Quirks) (cfg : Cfg) (cap : Cap) (stages : List Stage) : Outcome :=
   match cmdsToSpecs T ts q cfg cap stages with
@@ -467,7 +465,9 @@ def route (T : Tables) (ts : Nat → TState) (q : Quirks) (cfg : Cfg) (cap : Cap
       else
         let outs := specs.map (stageOut q cfg cap)
         if crashAfter q cap last then
-          ⟨none, true, if specs.length > 1 then blockLast specs.length outs else outs⟩
+          -- inside a pipeline the exception leaves the pipe into the last stage open in the shell (the alias may never
+          -- see EOF) and the earlier stages are torn down at an unpredictable moment: nothing is claimed about the stages
+          ⟨none, true, if specs.length > 1 then [] else outs⟩
         else ⟨none, false, outs⟩
 
 /-! ## the documented routing (docs/tutorial.rst "Input/Output Redirection", the comments of
@@ -542,7 +542,7 @@ def clsOf : Op → Cls
 inductive Claim where
   | file (t : Nat) (append : Bool)
   | other        -- merged into the other stream (`e>o` claims stderr, `o>e` claims stdout)
-  | pipe         -- into the following pipe (`a>p` claims both, `e>p` claims stderr)
+  | pipe         -- into the following pipe (`a>p` claims stdout, `e>p` claims stderr)
   deriving DecidableEq, Repr
 
 /-- a redirect that is acceptable on its own: documented operator, exactly the target it needs, and the
@@ -571,7 +571,7 @@ def claimErr : Op × Option Nat → Option Claim
   | (.errFile a, some t) => some (.file t a)
   | (.allFile a, some t) => some (.file t a)
   | (.errToOut, _) => some .other
-  | (.allToPipe, _) => some .pipe
+  | (.allToPipe, _) => some .other      -- `a>p`: stdout into the pipe, stderr merged into stdout
   | (.errToPipe, _) => some .pipe
   | _ => none
 
@@ -592,46 +592,62 @@ inductive SpecOutcome where
   | ok (stages : List StageOut)
   deriving DecidableEq, Repr
 
-/-- the documented routing of ONE stage: `i` its position, `n` the number of stages -/
+/-- the documented routing of one stage whose streams are claimed by `outs` / `errs` / `ins` (at most one claim each).
+`first` / `last`: is it the first / the last stage of the pipeline; `idx` its position -/
+def specCoreB (cfg : Cfg) (cap : Cap) (first last : Bool) (idx : Nat) (kind : Kind)
+    (outs errs : List Claim) (ins : List Nat) : SpecOutcome :=
+  let multi := !(first && last)                                                          -- more than one stage
+  if multi = true ∧ unthreadedAlias cfg kind = true then .error                          -- documented limitation
+  else if first = false ∧ ins ≠ [] then .error                                           -- `<` against the incoming pipe
+  else if last = true ∧ (outs = [.pipe] ∨ errs = [.pipe]) then .error                    -- `a>p` / `e>p` need a following `|`
+  else if last = false ∧ errs ≠ [.pipe] ∧ outs ≠ [] ∧ outs ≠ [.pipe] then .error         -- `> file` / `o>e` against the outgoing pipe
+  else if outs = [.other] ∧ errs = [.other] then .unspecified
+  else
+    let dfltOut : List Place :=
+      if last = false then [.stdinOf (idx + 1)]
+      else match cap with
+        | .stdout | .object => [.capOut]
+        | _ => [.termOut]
+    let dfltErr : List Place :=
+      if last = true ∧ cap = .object then .capErr :: (if cfg.printErr then [.termErr] else []) else [.termErr]
+    let errDirect : List Place := match errs with
+      | [.file t a] => [.file t (modeOf a)]
+      | [.pipe] => [.stdinOf (idx + 1)]
+      | _ => dfltErr
+    let o : List Place := match outs with
+      | [.file t a] => [.file t (modeOf a)]
+      | [.pipe] => [.stdinOf (idx + 1)]
+      | [.other] => errDirect
+      | _ => dfltOut
+    let e : List Place := match errs with
+      | [.other] => o
+      | _ => errDirect
+    let src : Src := match ins with
+      | [t] => .file t
+      | _ => if first = false then .pipe else .inherit
+    let fo : List (Nat × Str) := match outs with
+      | [.file t a] => [(t, modeOf a)]
+      | _ => []
+    let fe : List (Nat × Str) := match errs with
+      | [.file t a] => [(t, modeOf a)]
+      | _ => []
+    .ok [⟨src, o, e, fo ++ fe⟩]
+
+/-- … for the stage at position `i` of `n` -/
+def specCore (cfg : Cfg) (cap : Cap) (n i : Nat) (kind : Kind) (outs errs : List Claim) (ins : List Nat) : SpecOutcome :=
+  specCoreB cfg cap (i == 0) (i + 1 == n) i kind outs errs ins
+
+/-- the documented routing of ONE stage -/
 def specStage (ts : Nat → TState) (cfg : Cfg) (cap : Cap) (n i : Nat) (st : Stage) : SpecOutcome :=
   let ws := st.redirs.map fun (r, loc) => wellFormed ts r loc
-  if ws.any Option.isNone then .error
+  if ws.any Option.isNone then .error                                                -- an undocumented / ill-formed redirect
   else
     let ops := ws.filterMap id
     let outs := ops.filterMap claimOut
     let errs := ops.filterMap claimErr
     let ins := ops.filterMap claimIn
-    let last := i + 1 = n
     if outs.length > 1 ∨ errs.length > 1 ∨ ins.length > 1 then .error               -- two redirects for one stream
-    else if n > 1 ∧ unthreadedAlias cfg st.kind then .error                          -- documented limitation
-    else if i > 0 ∧ ins ≠ [] then .error                                             -- `<` against the incoming pipe
-    else if last ∧ (outs = [.pipe] ∨ errs = [.pipe]) then .error                     -- `a>p` / `e>p` need a following `|`
-    else if ¬ last ∧ errs ≠ [.pipe] ∧ outs ≠ [] then .error                          -- `> file` / `o>e` against the outgoing pipe
-    else if outs = [.other] ∧ errs = [.other] then .unspecified
-    else
-      let dfltOut : List Place :=
-        if ¬ last then [.stdinOf (i + 1)]
-        else match cap with
-          | .stdout | .object => [.capOut]
-          | _ => [.termOut]
-      let dfltErr : List Place :=
-        if last ∧ cap = .object then .capErr :: (if cfg.printErr then [.termErr] else []) else [.termErr]
-      let errDirect : List Place := match errs with
-        | [.file t a] => [.file t (modeOf a)]
-        | [.pipe] => [.stdinOf (i + 1)]
-        | _ => dfltErr
-      let o : List Place := match outs with
-        | [.file t a] => [.file t (modeOf a)]
-        | [.pipe] => [.stdinOf (i + 1)]
-        | [.other] => errDirect
-        | _ => dfltOut
-      let e : List Place := match errs with
-        | [.other] => o
-        | _ => errDirect
-      let src : Src := match ins with
-        | [t] => .file t
-        | _ => if i > 0 then .pipe else .inherit
-      .ok [⟨src, o, e⟩]
+    else specCore cfg cap n i st.kind outs errs ins
 
 def specFrom (ts : Nat → TState) (cfg : Cfg) (cap : Cap) (n : Nat) : Nat → List Stage → SpecOutcome
   | _, [] => .ok []
